@@ -116,6 +116,9 @@ def msg_targets(K):
     m = {}
     for n in targets:
         m.setdefault(er.expected_message(K, None, n), set()).add(n)
+    for n in getattr(K, "rof", ()):
+        # must_if control families (ctl4/ctl5): the control's error table has the message "mustif" for these rules
+        m.setdefault("mustif", set()).add(n)
     K._c05_targets = m
     return m
 
@@ -307,6 +310,8 @@ def _oracle(K, rec, counters):
                     out.append("try_catch_return_false (rule %d) caught an exception in required mode but left the cursor at %s (started at %s)" % (n[1], pos, fr["pos"]))
                 counters["caught_frames_checked"] += 1
             if n[2] == 0 and stack and head(stack[-1]["rule"])[0] == "must" and table[stack[-1]["rule"]]["subs"][-1:] == [n[1]]:
+                if ctl >= 4 and n[1] in getattr(K, "rof", ()):
+                    out.append("rule %d has a must_if message but failed locally (its failure() did not raise)" % n[1])
                 expect_raise = (n[1], pos)
             last_exit = (n[1], n[2], pos)
         elif k == "R":
@@ -332,6 +337,17 @@ def _oracle(K, rec, counters):
                         out.append("raise position byte %d outside [attempt start %d, end of input %d]" % (pos[0], fr["pos"][0], init[0] + len(data)))
             expect_raise = None
             pending = {"k": "P", "who": n[1], "pos": pos}
+        elif k == "F" and ctl >= 4 and n[1] in getattr(K, "rof", ()):
+            # must_if< errors >::control: failure() raises for a rule the error table has a message for.  The raise happens
+            # inside the rule's own frame, after its match() body returned: position = where the failed attempt left the cursor
+            counters["must_if_failure_raises"] += 1
+            pos = tuple(n[2:5])
+            fr = stack[-1] if stack else None
+            if has_trace and (fr is None or fr["rule"] != n[1]):
+                out.append("must_if failure() of rule %d while the innermost frame is rule %s" % (n[1], fr and fr["rule"]))
+            elif has_trace and not (fr["pos"][0] <= pos[0] <= init[0] + len(data)):
+                out.append("must_if raise position byte %d outside [attempt start %d, end of input %d]" % (pos[0], fr["pos"][0], init[0] + len(data)))
+            pending = {"k": "P", "who": n[1], "pos": pos, "own_of": n[1]}
         elif k == "A" and n[0] in (5, 6):
             if throw_pred(n[1], n[2], n[5]):
                 counters["action_throws"] += 1
@@ -353,11 +369,11 @@ def _oracle(K, rec, counters):
             if p is None:
                 return []
             if p["k"] == "N":
-                return [("P", er.expected_message(K, None, p["who"]), p["pos"])] + describe(p["inner"])
+                return [("P", er.expected_message(K, None, p["who"]), p["pos"])] + describe(p["inner"])      # raise_nested: normal.hpp message
             if p["k"] == "P":
                 if p["who"] < 0:
                     return [("P", None, p["pos"])]
-                return [("P", er.expected_message(K, None, p["who"]), p["pos"])]
+                return [("P", er.expected_message(K, None, p["who"], ctl), p["pos"])]
             if p["k"] == "F":
                 return [("F", p["tag"])]
             return [(p["k"],)]
@@ -508,6 +524,41 @@ def _c05_family(tier, seed):
     return out
 
 
+def _mustif_family(tier, seed):
+    """must_if controls (families ctl4/ctl5 of the harness): named rules with a message in the control's error table raise
+    from Control< Rule >::failure(); must< Rule > raises with that message.  Nested inside predicates, repetitions,
+    choices and the try_catch family."""
+    rnd = random.Random(seed * 131 + 9)
+    out = []
+    bodies = [
+        ("N1", ["N1"]), ("sor< N1, one< 'c' > >", ["N1"]), ("seq< opt< N0 >, N1 >", ["N1"]), ("seq< N0, one< 'c' > >", ["N0"]),
+        ("must< N1 >", ["N1"]), ("seq< one< 'a' >, must< N1 > >", ["N1"]), ("must< N0, N1 >", ["N0"]), ("star< N1 >", ["N1"]),
+        ("if_must< one< 'a' >, N1 >", ["N1"]), ("sor< seq< N1, one< 'c' > >, N0 >", ["N0", "N1"]), ("seq< at< N0 >, N1 >", ["N0"]),
+        ("seq< not_at< N1 >, any >", ["N1"]), ("plus< sor< one< 'c' >, N1 > >", ["N1"]), ("seq< NC, must< NC > >", ["NC"]),
+        ("seq< one< 'a' >, must< NC > >", []),        # custom error_message on an unmarked rule: must_if falls back to the base raise
+    ]
+    ctxs = _contexts()
+    for bi, (b, marks) in enumerate(bodies):
+        picks = [ctxs[0], ctxs[(bi * 5 + 3) % len(ctxs)]] if tier != "thorough" else [ctxs[0]] + [ctxs[(bi * 5 + 3 + 4 * j) % len(ctxs)] for j in range(4)]
+        for cn, wrap in picks:
+            g = _mk(wrap(b), ["c05", "c05:mustif", "raise", "ctx:" + cn])
+            g.mustif = set(marks)
+            out.append(g)
+        for ti in ([bi % len(TC), (bi + 4) % len(TC)] if tier != "thorough" else range(len(TC))):
+            g = _mk(_tc(ti, b), ["c05", "c05:mustif", "catch", "tc%d" % ti])
+            g.mustif = set(marks)
+            out.append(g)
+    # the root itself and a try_catch rule as must_if rules: the raise comes out of the rule's OWN failure(), outside its try block
+    g = _mk("seq< N1, one< 'c' > >", ["c05", "c05:mustif", "raise"]); g.mustif = {"G"}; out.append(g)
+    g = corpus.Gram(0, [("T0", "try_catch_return_false< seq< one< 'a' >, must< one< 'b' > > > >")], "sor< T0, star< any > >", tags=["c05", "c05:mustif", "catch"], mustif=["T0"]); out.append(g)
+    g = corpus.Gram(0, [("T0", "try_catch_any_raise_nested< seq< one< 'a' >, one< 'b' > > >")], "seq< opt< one< 'c' > >, T0 >", tags=["c05", "c05:mustif", "catch"], mustif=["T0"]); out.append(g)
+    return out
+
+
+MUSTIF_CFGS = [("act0", "ctl4", 1, 1, "lf_crlf"), ("act0", "ctl5", 1, 0, "lf_crlf"), ("act3", "ctl4", 1, 0, "lf_crlf"), ("act5", "ctl4", 1, 1, "lf_crlf"),
+               ("act1", "ctl5", 0, 1, "lf_crlf", "lazy"), ("act6", "ctl5", 1, 0, "lf", "init")]
+
+
 def extra_grams(tier, seed, start_gid):
     base = corpus.systematic(tier)
 
@@ -531,6 +582,7 @@ def extra_grams(tier, seed, start_gid):
     sel += corpus.random_grammars(seed, nrand, start_gid=0)
     sel += [g for g in corpus.atom_grammars(tier, start_gid=0) if "must" in g.root or "raise" in g.root]
     sel += _c05_family(tier, seed)
+    sel += _mustif_family(tier, seed)
     return sel
 
 
@@ -564,6 +616,8 @@ def choose_cfgs(g, k, tier):
         return [("act0", "ctl2", 1, 1, "lf_crlf", "lazy+init")]
     if "atoms" in g.tags:
         return er.EOL_CFGS
+    if "c05:mustif" in g.tags:
+        return MUSTIF_CFGS if tier == "thorough" else [MUSTIF_CFGS[0], MUSTIF_CFGS[1 + k % 5]]
     if "c05:pos" in g.tags:
         return POS_CFGS if tier == "thorough" else POS_CFGS[:4] + [POS_CFGS[4 + k % 2]]
     if tier == "thorough":
